@@ -427,7 +427,7 @@ pub fn damage(rd: &Rendered, op: usize, r: &mut Rng) -> Option<(String, String)>
             let MarkKind::DocStart { line_start, .. } = m.kind else { unreachable!() };
             let mut s = t.clone();
             // any directives already present stay; two %YAML lines are added in front of `---`
-            if t[..line_start].lines().rev().take_while(|l| l.starts_with('%')).any(|l| l.starts_with("%YAML")) {
+            if t[..line_start].lines().rev().take_while(|l| l.starts_with('%')).any(|l| l.starts_with("%YAML ")) {
                 s.insert_str(line_start, "%YAML 1.2\n");
             } else {
                 s.insert_str(line_start, "%YAML 1.2\n%YAML 1.2\n");
